@@ -242,6 +242,20 @@ theorem Reb.upsert_spec {r : Reb} (h : r.Inv) (now : Nat) (u : URL) (w : Option 
       cases w <;> simp [Reb.shadow, Pool.newWeight]
     · rw [i7]; exact Bal.upsert_heap_le _ _ _
 
+/-- `UpsertServer` whose meter factory fails: rolled back, nothing but the iterator and the heap differ -/
+theorem Reb.upsertMeterFails_spec {r : Reb} (h : r.Inv) (u : URL) (w : Option Nat) (hf : r.find u.key = none) :
+    (r.upsertMeterFails u w).Inv ∧ (r.upsertMeterFails u w).servers = r.servers ∧
+    (r.upsertMeterFails u w).timer = r.timer ∧ (r.upsertMeterFails u w).backoff = r.backoff ∧
+    (r.upsertMeterFails u w).bal.urls = r.bal.urls ∧ (r.upsertMeterFails u w).bal.ws = r.bal.ws := by
+  have hk : u.key ∉ r.bal.view.keys := by
+    rw [← Pool.find_none, h.find_bal]; exact hf
+  obtain ⟨b', hb', hwf, hu, hws, _, _⟩ := Bal.upsert_remove_new h.bal u w hk
+  have e : r.upsertMeterFails u w = { r with bal := b' } := by
+    unfold Reb.upsertMeterFails; simp only; rw [hb']; rfl
+  rw [e]
+  exact ⟨⟨hwf, by show r.servers.map Rec.key = b'.view.keys; rw [Bal.view_keys, hu]; exact h.keys,
+    by show r.servers.map (·.cur) = b'.ws; rw [hws]; exact h.ws, h.bounded, h.pos⟩, rfl, rfl, rfl, hu, hws⟩
+
 /-- `RemoveServer` through the rebalancer -/
 theorem Reb.remove_spec {r r' : Reb} (h : r.Inv) {now : Nat} {u : URL} (hr : r.remove now u = some r') :
     r'.Inv ∧ r.shadow.remove u.key = some r'.shadow ∧ (∀ p ∈ r'.servers, p.cur = p.orig) ∧
